@@ -40,7 +40,9 @@ INT_TEXTS = ["0", "1", "7", "9", "10", "11", "127", "128", "254", "255", "256", 
              "5", "6", "8", "20", "21", "99999999999999999999999", "\x80", "1\xff"]
 FLT_TEXTS = ["0", "-0", "1", "1.5", "-2.25", ".5", "5.", "1e10", "1e38", "3.4028235e38", "3.4028236e38", "1e39", "-1e39", "1e308", "1e309",
              "1e-46", "1e-320", "inf", "-inf", "nan", "-nan", "0x1p-3", "0x1.8p1", "abc", "", " ", "1.5x", "16777217", "0.1", "0.3", " 2", "2 ",
-             "1e", "e5", ".", "-", "9007199254740993", "0.5", "0.25", "1.0", "1.0000001", "0.99999994"]
+             "1e", "e5", ".", "-", "9007199254740993", "0.5", "0.25", "1.0", "1.0000001", "0.99999994",
+             # the negative side of both range ends (finite below -FLT_MAX: refused by a float field, fine for a double one)
+             "-1e38", "-3.4028235e38", "-3.4028236e38", "-3.5e38", "-1e300", "-1e308", "-1.7976931348623157e308", "-1e309", "-1e-46", "-1e-320"]
 PT_TEXTS = ["0.25", "0.25 0.75", "0.25,0.75", "1 1", "1.5 0", "0 1.5", "0 -0.1", "-0", "-0 -0", "nan", "nan nan", "0.5x", "0.5,", "1e39", "1 1e39",
             "0.25 abc", "abc", "", "0.25  0.5", "0.25 ", "0.25;0.5", "0.25/0.5:9", "1 2 3", "3.4028235e38 1", "3.4028236e38", "inf", "1e-46 0",
             "0.5\t0.25", "0x1p-1 0x1p-2", "1.0000001", "1 1.0000001", "2", "100 200", " ", "  \t", "\t0.5", "0.5 ", " 0.5 0.25", "0", "1", "0.25  ", "0.25 \t", "0.25   0.5 ", "0.25 0.5  ", "0.5\t\t", "1 \t 1", "0.25 ,0.5", "  0.25  "]
@@ -58,7 +60,9 @@ F32_BITS = [0, 0x80000000, 1, 0x3f800000, 0x3f800001, 0x3f7fffff, 0xbf800000, 0x
             0x00800000, 0x007fffff, 0x40490fdb]
 F64_BITS = [0, 0x8000000000000000, 1, 0x3ff0000000000000, 0x3ff0000000000001, 0x3fefffffffffffff, 0x47efffffe0000000, 0x47effffff0000000, 0x47f0000000000000,
             0x7fefffffffffffff, 0x7ff0000000000000, 0xfff0000000000000, 0x7ff8000000000000, 0x3fd0000000000000, 0x3fe0000000000000, 0x36a0000000000000,
-            0x3690000000000000, 0x400921fb54442d18, 0x3ff0000010000000, 0xc7f0000000000000]
+            0x3690000000000000, 0x400921fb54442d18, 0x3ff0000010000000, 0xc7f0000000000000,
+            # -FLT_MAX, the first doubles rounding to -inf as float, -DBL_MAX, negative values that round to -0 / the smallest float
+            0xc7efffffe0000000, 0xc7effffff0000000, 0xc7efffffefffffff, 0xffefffffffffffff, 0xb690000000000000, 0xb6a0000000000000]
 INT_VALS = {"b": [-128, -1, 0, 1, 33, 65, 127], "y": [0, 1, 5, 6, 8, 9, 10, 11, 20, 21, 65, 127, 128, 200, 255], "n": [-32768, -1, 0, 255, 256, 32767],
             "q": [0, 255, 256, 32767, 32768, 65535], "i": [-2147483648, -32769, -1, 0, 7, 255, 256, 32768, 65536, 16777217, 2147483647],
             "u": [0, 255, 256, 65536, 2147483648, 4294967295], "x": [-9223372036854775808, -2147483649, -1, 0, 255, 256, 4294967296, 9223372036854775807],
@@ -598,6 +602,13 @@ class C20(DiffProperty):
                     add("c", kind, (pre if usepre else []) + ops)
                     if k % (6 if quick else 2) == 1:
                         add("x", kind, (pre if k % 4 == 1 else []) + ops)
+                    # EVERY value of the value set also reaches the setter of the field: a case / alias variant may be a name
+                    # the object does not know (x1 / x2 / y1 / y2 of a line are case sensitive: `X1` is refused as unknown name
+                    # whatever the value), so the value is given once more under the property's first, exact name, from a
+                    # non-default previous value (a refusal has to keep it, an acceptance has to replace it)
+                    if nm not in names:
+                        first = [p for p in pre if p[0][2] in [hx(n) for n in names]]
+                        add("c", kind, (first if k % 2 else []) + [(["set", "a", hx(names[0]), t], qq), (["get", "a", hx(listed)], [])])
                 # name variants / unknown names with one plain value
                 for nm in variants + [names[0] + "x", names[0][:-1], " " + names[0], names[0] + " "]:
                     tok, q = self.gen_sources(rng, ftype, tier, grid=(kind == "graph" and listed == "grid"))[2]
@@ -900,7 +911,8 @@ class C20(DiffProperty):
 
     rule = ("cases = (implementation: C API | mpt++ object, kind, operation history) over two objects a/b; operations: set by name "
             "(every settable name incl. aliases and case variants x the value set of the field: numerals across and beyond the range, "
-            "floats incl. inf/nan/overflow/hex, strings of length 0/1/255/256/1000, colour names/#hex forms/malformed, line attribute values, "
+            "floats incl. inf/nan/hex and both signs of both range ends (float and double overflow / underflow), every value at least once under "
+            "the exact first name of the property (case variants that the object does not know are extra cases), strings of length 0/1/255/256/1000, colour names/#hex forms/malformed, line attribute values, "
             "points; as text through mpt_object_set_string and as typed values through mpt_object_set_value), reset, generic assignment from "
             "the other object / NULL / plain values with NULL and empty name, lookup by every prefix, mpt_object_set_property with every flag "
             "combination, the whole-object query (property \"\") and the query without record; full property dump of both objects through the "
